@@ -1166,7 +1166,8 @@ class ProgramData:
         Load the currently processing source code
         """
 
-        cls._current_source = src.splitlines(keepends=False)
+        # (the parser counts lines by "\n" only; str.splitlines would also split at form feeds, lone "\r" and other separators)
+        cls._current_source = [line[:-1] if line.endswith("\r") else line for line in src.split("\n")]
 
     @classmethod
     def _ensure_refmapped(cls, obj: object):
@@ -1566,7 +1567,7 @@ class NMFUError(Exception):
         for i in range(column):
             if i == column - 1:
                 marker += "^"
-            elif ProgramData.get_source_line(line)[i] == "\t":
+            elif (ProgramData.get_source_line(line) or "")[i:i+1] == "\t":
                 marker += "\t"
             else:
                 marker += " "
